@@ -9,12 +9,19 @@ RULE = ("header documents: multisets of the 30 known header names (random case) 
         "Project-URL labels, values with commas / non-ASCII / RFC 2047 words / folded lines / surrounding blanks, str and bytes input "
         "(UTF-8, Latin-1 and damaged bytes), with/without body, multipart and transfer-encoded bodies, structural damage; the model is fed "
         "what the email package delivers for the same document; serialise->parse round trips of well-formed RawMetadata dicts; "
-        "non-trivial = at least one header or a body reached one of the two dicts; distinct by document")
+        "non-trivial = at least one header or a body reached one of the two dicts; distinct by document; "
+        "improvement round: str documents with surrogate-escaped bytes (U+DC80..DCFF) and astral characters; e.lines: the email package "
+        "against the line-level parser of the text round-trip theorem on documents of plain 'Name: value' lines; laws: str input == UTF-8 bytes "
+        "input, the generator's own (name, value) list against the two dicts, round trips under random header capitalisation, and the "
+        "pinned results of round trips OUTSIDE the well-formedness domain")
 ASSUMPTIONS = [
     "everything inside the stdlib email package (header splitting, folding, RFC 2047 decoding, surrogate escapes, transfer encodings, "
     "multipart) is an oracle: the model starts from the header list and payload it returns",
-    "round trip: values are well formed (single line, no surrounding white space, non-empty lists/dicts/description, keywords and "
-    "Project-URL labels without commas)",
+    "round trip: values are well formed (no line-break character of str.splitlines, no leading blank, non-empty lists/dicts/description, "
+    "keywords and Project-URL labels without commas and surrounding white space) - coq: wf_text; outside it the round trip fails as pinned by law.e.roundtrip-neg",
+    "str input is text: lone surrogates U+D800..DBFF / U+DC00..DC7F are outside the domain (the email package raises UnicodeEncodeError); "
+    "U+DC80..DCFF (surrogate-escaped bytes) are accepted by the package in otherwise ASCII documents and generated there, but only for the "
+    "correspondence with the model (mixed with real non-ASCII text in one header value or body the package raises UnicodeEncodeError)",
 ]
 TRUSTED_EXTRA = ["email.parser.Parser/BytesParser(policy=compat32), Message.items/get_payload, email.header.decode_header/make_header: "
                  "harness/impl/email_impl.py extract() repeats parse_email's calls to obtain the model's input"]
@@ -29,7 +36,7 @@ UNKNOWN_H = ["X-Foo", "bar", "Descriptions", "Project-URLs", "Name_", "Licence",
 VALS = ["x", "a b", "café", "1.0", "a, b", "k1,k2 , k3", "lbl, http://u", "lbl2,http://v", "lbl, http://other", "nolabel", "", "ünï", "x; y=z",
         "=?utf-8?q?caf=C3=A9?=", "=?utf-8?b?Y2Fmw6k=?= tail", "  padded  ", "a,\n b", "folded\n\tline", ",", ",,", " , x", "lbl ,", " x", "tab\tin",
         "=?latin-1?q?caf=E9?=", "=?utf-8?q?=ff?=", "\x0b,\x0c", "　k　, j", ":", "a: b", "=?bogus?q?x?="]
-BODIES = ["", "", "", "body text\nmore", "x", "\n", "café\n", "  ", "line\n\nline", "0"]
+BODIES = ["", "", "", "body text\nmore", "x", "\n", "café\n", "  ", "line\n\nline", "0", "\U0001F600", "x\udcffy", "caf\udcc3\udca9", "a\r\nb", "Name: x"]
 
 
 def rand_doc(rng):
@@ -53,13 +60,37 @@ def rand_doc(rng):
     elif r < 0.12: doc = "From someone\n" + doc
     elif r < 0.14 and lines: i = rng.randrange(len(lines) + 1); ls = lines[:]; ls.insert(i, rng.choice(["no colon here", " leading blank: x", ": noname", "bad name: x", "é: x"])); doc = "".join(l + nl for l in ls)
     if body or rng.random() < 0.1: doc += nl + body
+    if has_surrogate(doc) and any(ord(c) > 127 and not 0xD800 <= ord(c) < 0xE000 for c in doc):
+        # a header value or body mixing surrogate-escaped bytes with real non-ASCII text is not a str the email package can take
+        # (UnicodeEncodeError): outside the domain, see ASSUMPTIONS
+        doc = "".join("?" if 0xD800 <= ord(c) < 0xE000 else c for c in doc)
     return doc
+
+
+def has_surrogate(s):
+    return any(0xD800 <= ord(c) < 0xE000 for c in s)
+
+
+def simple_doc(rng):
+    """-> (headers [(name, value)], body, text): plain 'Name: value' lines (any capitalisation, blanks after the colon), blank line, body"""
+    hs = []
+    for _ in range(rng.choice([0, 1, 2, 3, 5, 8])):
+        nm = rng.choice(KNOWN) if rng.random() < 0.85 else rng.choice(UNKNOWN_H)
+        for _ in range(rng.choice([1, 1, 1, 2, 3]) if (nm in MULTI or rng.random() < 0.15) else 1):
+            name = nm if rng.random() < 0.5 else gen.rand_case(rng, nm.lower()) if rng.random() < 0.7 else nm.upper()
+            v = rng.choice(SIMPLE_VALS)
+            hs.append((name, v))
+    rng.shuffle(hs)
+    body = rng.choice(["", "", "body text\nmore", "x", "\n", "café\n", "  ", "line\n\nline", "0", "\U0001F600", "a\r\nb", "Name: x", " x", "\x0b"])
+    text = "".join("%s:%s%s\n" % (n, rng.choice([" ", " ", "", "  ", "\t", " \t "]), v) for n, v in hs)
+    if body or rng.random() < 0.1: text += "\n" + body
+    return hs, body, text
 
 
 def to_source(rng, doc):
     """-> (kind, text) where text is the str document or the bytes document as Latin-1 text"""
     r = rng.random()
-    if r < 0.5: return "s", doc
+    if r < 0.5 or has_surrogate(doc): return "s", doc
     if r < 0.85: data = doc.encode("utf-8")
     elif r < 0.93: data = doc.encode("latin-1", "replace")
     else:
@@ -70,9 +101,29 @@ def to_source(rng, doc):
     return "b", data.decode("latin-1")
 
 
+SIMPLE_VALS = [v for v in VALS if not has_surrogate(v) and not any(c in v for c in "\n\r\x0b\x0c\x1c\x1d\x1e\x85\u2028\u2029")] + ["x ", "a\tb", "\xa0x", "=?utf-8?q?a?= =?utf-8?q?b?="]
+
+# round trips outside the well-formedness domain: (raw dict, what parse_email returns for its serialisation) - observed, pinned
+ROUNDTRIP_NEG = [
+    ({"name": " x"}, ({"name": "x"}, {})),
+    ({"name": "\tx"}, ({"name": "x"}, {})),
+    ({"summary": "a\nb"}, ({"summary": "a", "description": "b\n"}, {})),
+    ({"classifiers": ["x\r"]}, ({"classifiers": ["x"]}, {})),
+    ({"keywords": ["a,b"]}, ({"keywords": ["a", "b"]}, {})),
+    ({"keywords": [" a"]}, ({"keywords": ["a"]}, {})),
+    ({"keywords": []}, ({"keywords": [""]}, {})),
+    ({"classifiers": []}, ({}, {})),
+    ({"description": ""}, ({}, {})),
+    ({"project_urls": {}}, ({}, {})),
+    ({"project_urls": {"a,b": "u"}}, ({"project_urls": {"a": "b, u"}}, {})),
+    ({"project_urls": {"a": " u "}}, ({"project_urls": {"a": "u"}}, {})),
+    ({"project_urls": {" a": "u"}}, ({"project_urls": {"a": "u"}}, {})),
+]
+
 # ---- well-formed RawMetadata for the round trip
 RT_S = ["x", "a b", "café", "1.0", "ünï", "http://u/v?w=1", "text/markdown; variant=GFM", ">=3.8", "", "a, b", "x:y", "tab\tin", "日本",
-        "=?utf-8?q?caf=C3=A9?=", "=?utf-8?q?x?= é", "a  b", "x =?bogus", "{x}"]
+        "=?utf-8?q?caf=C3=A9?=", "=?utf-8?q?x?= é", "a  b", "x =?bogus", "{x}", "trailing ", "x\t", "\U0001F600", "a\U00010000b", "\xa0nbsp\xa0", ": x", "x:"]
+RT_U = [v for v in RT_S if v == v.strip()]          # URLs come back stripped
 RT_K = ["k1", "k 2", "é", "x:y", "a;b"]
 RT_L = ["Home", "Docs", "Bug Tracker", "é", "x:y", ""]
 STRING_K = ["metadata_version", "name", "version", "summary", "description", "home_page", "author", "author_email", "license", "download_url", "maintainer",
@@ -86,8 +137,8 @@ def rand_raw(rng):
     for k in rng.sample(STRING_K + LIST_K + ["keywords", "project_urls"], rng.choice([0, 1, 3, 6, 12, 20])):
         if k in LIST_K: d[k] = [rng.choice(RT_S) for _ in range(rng.choice([1, 2, 3]))]
         elif k == "keywords": d[k] = [rng.choice(RT_K) for _ in range(rng.choice([1, 2, 3]))]
-        elif k == "project_urls": d[k] = {l: rng.choice(RT_S) for l in rng.sample(RT_L, rng.choice([1, 2, 3]))}
-        elif k == "description": d[k] = rng.choice(["desc", "multi\nline\n\ndesc", "ünï", " leading", "x\n", "Name: not a header\n"])
+        elif k == "project_urls": d[k] = {l: rng.choice(RT_U) for l in rng.sample(RT_L, rng.choice([1, 2, 3]))}
+        elif k == "description": d[k] = rng.choice(["desc", "multi\nline\n\ndesc", "ünï", " leading", "x\n", "Name: not a header\n", "\n", "a\r\nb", "\U0001F600", "x\x0by\u2028z", "\n\nx"])
         else: d[k] = rng.choice(RT_S)
     return d
 
@@ -134,13 +185,37 @@ def streams(rng, tier):
         if stream != "sweep-pairs" or not q: cases.append(Case(stream + "-law", "law.e.spec", [kind, text], kind="law"))
     for _ in range(2000 if q else 100000):
         cases.append(Case("law-roundtrip", "law.e.roundtrip", enc_dict(rand_raw(rng)), kind="law"))
+    # round trip with every header line in its own random capitalisation
+    for _ in range(1000 if q else 50000):
+        cases.append(Case("law-roundtrip-spelling", "law.e.roundtrip2", [str(rng.randrange(10 ** 9))] + enc_dict(rand_raw(rng)), kind="law"))
+    # necessity of the well-formedness conditions: the pinned results outside them
+    for raw, want in ROUNDTRIP_NEG:
+        cases.append(Case("law-roundtrip-neg", "law.e.roundtrip-neg", [json.dumps(raw), json.dumps(want)], kind="law"))
+    # the email package against parse_lines (the line-level parser of the text round-trip theorem); "?" = not a document of the simple shape
+    lines_docs = [t for _, k, t in docs if k == "s" and not has_surrogate(t)]          # text only: parse_lines says nothing about surrogates
+    simple = [simple_doc(rng) for _ in range(1500 if q else 80000)]
+    lines_docs += [t for _, _, t in simple]
+    for _ in range(500 if q else 30000):
+        lines_docs.append(gen.mutate(rng, rng.choice(simple)[2] or "Name: x\n", list(":\n \t,") + ["\r", "\x0b", "\x1c", "\x85", "\u2028", "é", "Content-Type", "\n\n"]))
+    for t in lines_docs:
+        cases.append(Case("lines", "e.lines", [t]))
+    # str input == UTF-8 bytes input (documents without surrogates, Content-Type and Content-Transfer-Encoding); independent of extract()
+    for t in lines_docs:
+        if not has_surrogate(t) and "content-t" not in t.lower():
+            cases.append(Case("law-str-bytes", "law.e.strbytes", [t], kind="law"))
+    # the generator's own (name, value) list against the two dicts; independent of extract()
+    for hs, body, text in simple:
+        cases.append(Case("law-pairs", "law.e.pairs", [json.dumps(hs), body, text], kind="law"))
     return cases
 
 
 def compare(case, impl, model):
+    if case.cmd == "e.lines":
+        if impl.startswith("!EXC"): return "the email package raised on a str document: " + impl
+        return None if model == "?" or impl == model else "the email package does not deliver what parse_lines says for a document of plain header lines"
     if impl.startswith("!EXC"): return "parse_email raised: " + impl
     return None if impl == model else "implementation differs from model"
 
 
 def nontrivial(case, impl):
-    return impl not in ("|", "ok") or case.kind == "law"
+    return impl not in ("|", "ok", '|""') or case.kind == "law"
